@@ -50,6 +50,27 @@ Theorem C10_layout_example_batched : forall ia im md rows, build QcNum layout_ex
   expected_actualdata_batched QcNum ia im layout_example_spec layout_example_st md rows =
   map (expected_actualdata QcNum ia im layout_example_spec layout_example_st md) rows.
 Proof. exact layout_example_batched. Qed.
+(* the auxiliary part (expected values of the constraint terms, in auxdata order) and the whole of Model.expected_data
+   (main part ++ auxiliary part) of the batched model: row r is the unbatched model on row r, for every accepted specification,
+   every combination of constrained modifier families, every batch size (BatchAux.v) *)
+Require Import PV.BatchAux.
+Theorem C10_batched_expected_auxdata : forall N (sp : spec N) (md : model N), build N sp = Ok md -> forall rows,
+  (forall row, In row rows -> length row = md_npars N md) ->
+  expected_auxdata_batched N md rows = map (expected_auxdata N md) rows.
+Proof. exact batched_expected_auxdata. Qed.
+Theorem C10_batched_expected_data_whole : forall N interp_add interp_mul (sp : spec N) (st : settings N) (md : model N),
+  build N sp = Ok md -> forall rows,
+  (forall row, In row rows -> length row = md_npars N md) ->
+  expected_data_batched N interp_add interp_mul sp st md rows = map (expected_data N interp_add interp_mul sp st md) rows.
+Proof. exact batched_expected_data_whole. Qed.
+Theorem C10_batch_dimension_leading : forall N interp_add interp_mul (sp : spec N) (st : settings N) (md : model N) rows,
+  length (expected_data_batched N interp_add interp_mul sp st md rows) = length rows.
+Proof. exact batched_expected_data_rows. Qed.
+Theorem C10_layout_example_batched_whole : forall ia im md rows, build QcNum layout_example_spec = Ok md ->
+  (forall row, In row rows -> length row = 13) ->
+  expected_data_batched QcNum ia im layout_example_spec layout_example_st md rows =
+  map (expected_data QcNum ia im layout_example_spec layout_example_st md) rows.
+Proof. exact layout_example_batched_whole. Qed.
 Print Assumptions C10_flat_index.
 Print Assumptions C10_batched_expected_data.
 Print Assumptions C10_batched_logpdf_terms.
@@ -58,3 +79,7 @@ Print Assumptions C10_reads_in_range_accepted.
 Print Assumptions C10_reads_in_range_schema.
 Print Assumptions C10_reads_in_range_refuted.
 Print Assumptions C10_layout_example_batched.
+Print Assumptions C10_batched_expected_auxdata.
+Print Assumptions C10_batched_expected_data_whole.
+Print Assumptions C10_batch_dimension_leading.
+Print Assumptions C10_layout_example_batched_whole.
